@@ -101,6 +101,10 @@ void string_to_hw_address(const string& hw_addr, uint8_t* output, size_t output_
             }
         }
     }
+    // Anything left after the last group is not part of an address
+    if (i < hw_addr.size()) {
+        throw invalid_address();
+    }
     while (count++ < output_size) {
         *(output++) = 0;
     }
